@@ -40,7 +40,7 @@ MANIFEST = (
     "Theorems (Props/C04.v) over the Gallina port of find_parents, the two lineage passes and the VM's RenderBlock/super()/capture_block logic: lineage "
     "equals the specified one for every chain and every iteration order of the maps involved, the model render equals the recursive specification "
     "for chains of any length and any nesting (same fuel on both sides, so also for divergent sets), finalize rejects exactly orphan top-level child "
-    "blocks, and single-block rendering returns the text of the block's last activation in the full render. The port is tied to the code by running "
+    "blocks, a finite render never activates a block inside itself, and single-block rendering returns exactly the text the block writes in the full render ("" if never reached, same error if the render fails). The port is tied to the code by running "
     "both on generated template sets (exhaustive small chains, sampled longer ones, random forests) inside coqc.",
     "§6 C04",
 )
